@@ -11,6 +11,9 @@ import ClairModel.Proofs.IndexerHist
 import ClairModel.Proofs.IndexerFetch
 import ClairModel.Proofs.StateToken
 
+-- every variable of a property statement is bound explicitly: a misspelt name is an error, not a new variable
+set_option autoImplicit false
+
 namespace ClairModel.Props.C08
 open ClairModel ClairModel.Indexer
 
